@@ -44,64 +44,69 @@ NaryPrec(t) == CASE t = "Sum" -> PREC_SUM [] t = "Product" -> PREC_PRODUCT [] t 
                  [] t = "LogOr" -> PREC_LOGICAL_OR [] t = "LogAnd" -> PREC_LOGICAL_AND
 MultPrims == {"Product", "Quotient", "FloorDiv", "Remainder"}
 
-RECURSIVE Str(_, _)
+RECURSIVE StrM(_, _, _)
 \* rec_with_force_parens_around
-RecForce(x, prec, kinds) == LET r == Str(x, prec) IN IF x.t \in kinds THEN Paren(r) ELSE r
+RecForce(py, x, prec, kinds) == LET r == StrM(py, x, prec) IN IF x.t \in kinds THEN Paren(r) ELSE r
 \* join_rec(joiner, children, prec, force_parens_around=kinds)
-JoinRec(sep, xs, prec, kinds) ==
+JoinRec(py, sep, xs, prec, kinds) ==
     LET RECURSIVE Go(_)
         Go(i) == IF i > Len(xs) THEN << >>
-                 ELSE (IF i > 1 THEN << sep >> ELSE << >>) \o RecForce(xs[i], prec, kinds) \o Go(i + 1)
+                 ELSE (IF i > 1 THEN << sep >> ELSE << >>) \o RecForce(py, xs[i], prec, kinds) \o Go(i + 1)
     IN Go(1)
 
-Str(e, enc) ==
+StrM(py, e, enc) ==
     CASE e.t = "Var" -> << e.name >>
       [] e.t = "Const" -> LET t == ConstTokens(e.v) IN
                           IF HasSign(e.v) /\ enc > PREC_SUM THEN Paren(t) ELSE t
-      [] e.t = "Call" -> Str(e.f, PREC_CALL) \o << "(" >> \o JoinRec(",", e.c, PREC_NONE, {}) \o << ")" >>
+      [] e.t = "Call" -> StrM(py, e.f, PREC_CALL) \o << "(" >> \o JoinRec(py, ",", e.c, PREC_NONE, {}) \o << ")" >>
       [] e.t = "CallKw" ->
-            LET kws == [i \in 1..Len(e.kw) |-> << e.kw[i].name, "=" >> \o Str(e.kw[i].e, PREC_NONE)]
+            LET kws == [i \in 1..Len(e.kw) |-> << e.kw[i].name, "=" >> \o StrM(py, e.kw[i].e, PREC_NONE)]
                 RECURSIVE GoK(_, _)
                 GoK(i, first) == IF i > Len(kws) THEN << >>
                                  ELSE (IF first THEN << >> ELSE << "," >>) \o kws[i] \o GoK(i + 1, FALSE)
-            IN Str(e.f, PREC_CALL) \o << "(" >> \o JoinRec(",", e.c, PREC_NONE, {})
+            IN StrM(py, e.f, PREC_CALL) \o << "(" >> \o JoinRec(py, ",", e.c, PREC_NONE, {})
                \o GoK(1, Len(e.c) = 0) \o << ")" >>
       [] e.t = "Sub" ->
-            LET idx == IF e.b.t = "Tup" THEN JoinRec(",", e.b.c, PREC_NONE, {}) ELSE Str(e.b, PREC_NONE)
-            IN ParenIf(Str(e.a, PREC_CALL) \o << "[" >> \o idx \o << "]" >>, enc, PREC_CALL)
-      [] e.t = "Look" -> ParenIf(Str(e.a, PREC_CALL) \o << ".", e.name >>, enc, PREC_CALL)
+            LET idx == IF e.b.t = "Tup" THEN JoinRec(py, ",", e.b.c, PREC_NONE, {}) ELSE StrM(py, e.b, PREC_NONE)
+            IN ParenIf(StrM(py, e.a, PREC_CALL) \o << "[" >> \o idx \o << "]" >>, enc, PREC_CALL)
+      [] e.t = "Look" -> ParenIf(StrM(py, e.a, PREC_CALL) \o << ".", e.name >>, enc, PREC_CALL)
       [] e.t = "Product" ->
-            ParenIf(JoinRec("*", e.c, PREC_PRODUCT, {"Quotient", "FloorDiv", "Remainder"}), enc, PREC_PRODUCT)
+            ParenIf(JoinRec(py, "*", e.c, PREC_PRODUCT, {"Quotient", "FloorDiv", "Remainder"}), enc, PREC_PRODUCT)
       [] e.t \in {"Sum", "BitOr", "BitXor", "BitAnd", "LogOr", "LogAnd"} ->
-            ParenIf(JoinRec(NarySym(e.t), e.c, NaryPrec(e.t), {}), enc, NaryPrec(e.t))
+            ParenIf(JoinRec(py, NarySym(e.t), e.c, NaryPrec(e.t), {}), enc, NaryPrec(e.t))
       [] e.t \in {"Quotient", "FloorDiv", "Remainder"} ->
-            ParenIf(RecForce(e.a, PREC_PRODUCT, MultPrims) \o << BinSym(e.t) >>
-                    \o RecForce(e.b, PREC_PRODUCT, MultPrims), enc, PREC_PRODUCT)
+            ParenIf(RecForce(py, e.a, PREC_PRODUCT, MultPrims) \o << BinSym(e.t) >>
+                    \o RecForce(py, e.b, PREC_PRODUCT, MultPrims), enc, PREC_PRODUCT)
       [] e.t = "Power" ->
-            ParenIf(Str(e.a, PREC_POWER + 1) \o << "**" >> \o Str(e.b, PREC_POWER), enc, PREC_POWER)
+            ParenIf(StrM(py, e.a, PREC_POWER + 1) \o << "**" >> \o StrM(py, e.b, PREC_POWER), enc, PREC_POWER)
       [] e.t \in {"LShift", "RShift"} ->
-            ParenIf(Str(e.a, PREC_SHIFT + 1) \o << BinSym(e.t) >> \o Str(e.b, PREC_SHIFT + 1), enc, PREC_SHIFT)
-      [] e.t = "BitNot" -> ParenIf(<< "~" >> \o Str(e.a, PREC_UNARY), enc, PREC_UNARY)
-      [] e.t = "LogNot" -> ParenIf(<< "not" >> \o Str(e.a, PREC_UNARY), enc, PREC_UNARY)
+            ParenIf(StrM(py, e.a, PREC_SHIFT + 1) \o << BinSym(e.t) >> \o StrM(py, e.b, PREC_SHIFT + 1), enc, PREC_SHIFT)
+      [] e.t = "BitNot" -> ParenIf(<< "~" >> \o StrM(py, e.a, PREC_UNARY), enc, PREC_UNARY)
+      \* py = TRUE: the compile mapper (compiler.py), which writes Python: 'not' binds more loosely
+      \* than comparisons and arithmetic there, and a < b < c would be a chain
+      [] e.t = "LogNot" -> ParenIf(<< "not" >> \o StrM(py, e.a, PREC_UNARY), enc,
+                                   IF py THEN PREC_LOGICAL_AND ELSE PREC_UNARY)
       [] e.t = "Cmp" ->
-            ParenIf(Str(e.a, PREC_COMPARISON) \o << e.op >> \o Str(e.b, PREC_COMPARISON), enc, PREC_COMPARISON)
+            LET cp == IF py THEN PREC_BITWISE_OR ELSE PREC_COMPARISON IN
+            ParenIf(StrM(py, e.a, cp) \o << e.op >> \o StrM(py, e.b, cp), enc, PREC_COMPARISON)
       [] e.t = "If" ->
-            ParenIf(Str(e.th, PREC_LOGICAL_OR) \o << "if" >> \o Str(e.i, PREC_LOGICAL_OR) \o << "else" >>
-                    \o Str(e.el, PREC_LOGICAL_OR), enc, PREC_IF)
-      [] e.t = "Tup" -> << "(" >> \o JoinRec(",", e.c, PREC_NONE, {})
+            ParenIf(StrM(py, e.th, PREC_LOGICAL_OR) \o << "if" >> \o StrM(py, e.i, PREC_LOGICAL_OR) \o << "else" >>
+                    \o StrM(py, e.el, PREC_LOGICAL_OR), enc, PREC_IF)
+      [] e.t = "Tup" -> << "(" >> \o JoinRec(py, ",", e.c, PREC_NONE, {})
                         \o (IF Len(e.c) = 1 THEN << "," >> ELSE << >>) \o << ")" >>
-      [] e.t = "List" -> << "[" >> \o JoinRec(",", e.c, PREC_NONE, {}) \o << "]" >>
+      [] e.t = "List" -> << "[" >> \o JoinRec(py, ",", e.c, PREC_NONE, {}) \o << "]" >>
       [] e.t = "Slice" ->
             LET RECURSIVE Go(_)
                 Go(i) == IF i > Len(e.c) THEN << >>
                          ELSE (IF i > 1 THEN << ":" >> ELSE << >>)
-                              \o (IF e.c[i].t = "None" THEN << >> ELSE Str(e.c[i], PREC_NONE)) \o Go(i + 1)
+                              \o (IF e.c[i].t = "None" THEN << >> ELSE StrM(py, e.c[i], PREC_NONE)) \o Go(i + 1)
             IN ParenIf(Go(1), enc, PREC_NONE)
       [] e.t \in {"Min", "Max"} ->
-            << IF e.t = "Min" THEN "min" ELSE "max", "(" >> \o JoinRec(",", e.c, PREC_NONE, {}) \o << ")" >>
-      [] e.t = "CSE" -> << "CSE", "(" >> \o Str(e.a, PREC_NONE) \o << ")" >>
+            << IF e.t = "Min" THEN "min" ELSE "max", "(" >> \o JoinRec(py, ",", e.c, PREC_NONE, {}) \o << ")" >>
+      [] e.t = "CSE" -> << "CSE", "(" >> \o StrM(py, e.a, PREC_NONE) \o << ")" >>
       [] OTHER -> << "?node" >>
 
-Stringify(e) == Str(e, PREC_NONE)
+Stringify(e) == StrM(FALSE, e, PREC_NONE)      \* StringifyMapper: what str(expr) prints
+StringifyPy(e) == StrM(TRUE, e, PREC_NONE)     \* CompileMapper: the source pymbolic.compile generates
 Printable(toks) == \A i \in 1..Len(toks) : toks[i] \notin {"?node", "?const", "?float"}
 =============================================================================
